@@ -217,3 +217,213 @@ Qed.
    the real OnDiskBytesDict / OnDiskByteArray behave like dict / bytearray is
    checked by the correspondence run (harness/props/c05.py compares the files
    written under both strategies byte for byte with each other and the model). *)
+
+(* ---------------------------------------------------------------------------
+   End to end, position level (link C03 <-> C09 <-> C04/C05): PrecomputedIO
+   over the SHARDED accessor, one scale.  Model: theories/Link/LinkSharded.v
+   (write phase = a list of write_chunk calls: validate_chunk_coords, chunk
+   encoder, ShardedFileAccessor.store_chunk = get_cmc + store_cmc_chunk; then
+   close(); read_chunk through a freshly opened accessor: validate, fetch_chunk
+   = get_cmc + the package reader on the written files, chunk decoder).
+   Proofs: theories/Link/LinkShardedProofs.v.
+
+   The identifier-level hypothesis [ops_valid] of the theorems above (distinct
+   identifiers < 2^64 with rank + 1 < 2^64) is DISCHARGED here from the
+   position-level hypotheses through C09 (get_cmc total on accepted positions,
+   identifiers below 2^(total bits) <= 2^64, injective).  What remains:
+     - cbits sp < 2^64, sp_m sp < 59          (bounds on the sharding triple)
+     - rank_room sp v: the grid needs fewer than 64 identifier bits, or there
+       is at least one shard / minishard bit and preshift_bits < 64 (excludes
+       only identifier 2^64 - 1 having rank 2^64 - 1, where the uint64 counter
+       of MiniShard wraps)
+     - sizes_ok63 on sh_ops (the encoded chunks that reach the writer): every
+       shard file stays below 2^63 bytes (signed file offsets of the reader);
+       executable sufficient check: LinkShardedProofs.sizes_ok63_check
+     - data / index encoders with left-inverse decoders, non-empty encoded index
+     - the chunk codec round-trip law of C03_io_refinement.
+   [find_scale scales key = Some (cubic_scale ...)]: the scale addressed is the
+   one PrecomputedIO finds under [key]; it has ONE cubic chunk size and voxel
+   offset (0,0,0) (what ShardVolumeSpec / validate_chunk_coords accept), and
+   [v] is the ShardVolumeSpec built from the same size and chunk size. *)
+From NGS Require Import PioModel LinkSharded LinkShardedProofs.
+
+(* for every volume size and cubic chunk size accepted by mk_vspec, every
+   sharding triple within the bounds, every list of writes to pairwise distinct
+   accepted positions in ANY order:
+   (1) no write is refused by the sharded writer - a write fails exactly when
+       the chunk encoder fails, with the encoder's exception;
+   (2) every Shard.close returns normally and writes its file;
+   (3) after close, reading any position whose write succeeded through a
+       freshly opened accessor returns exactly the chunk written there. *)
+Theorem C05_chunk_io_roundtrip :
+  forall (chunk : Type) (encode : list N -> chunk -> outcome bytes)
+         (decode : list N -> bytes -> triple -> outcome chunk) (shape_of : chunk -> triple)
+         (sp : sparams) (denc ienc : bytes -> bytes) (ddec idec : bytes -> outcome bytes)
+         (scales : list PioModel.scale) (key : list N) (sx sy sz cs : Z) (v : vspec),
+  (forall k ch b, encode k ch = Ok b -> decode k b (shape_of ch) = Ok ch) ->
+  cbits sp < 2 ^ 64 -> sp_m sp < 59 ->
+  (forall b, ddec (denc b) = Ok b) -> (forall b, idec (ienc b) = Ok b) ->
+  (forall b, b <> [] -> ienc b <> []) ->
+  find_scale scales key = Some (cubic_scale key sx sy sz cs) ->
+  mk_vspec [cs; cs; cs] [sx; sy; sz] = Ok v ->
+  rank_room sp v ->
+  forall ws : list (chunk * PioModel.coords),
+  NoDup (map snd ws) ->
+  Forall (fun w => check_valid scales key (snd w) = Ok tt) ws ->
+  sizes_ok63 sp denc ienc (sh_ops chunk encode scales v key ws) ->
+  fst (sh_session chunk encode sp denc ienc scales v key ws) =
+    map (fun w => bind (encode key (fst w)) (fun _ => Ok tt)) ws /\
+  (forall name r, In (name, r) (snd (sh_session chunk encode sp denc ienc scales v key ws)) ->
+     exists f, r = Ok (Some f)) /\
+  (forall ch c b, In (ch, c) ws -> encode key ch = Ok b -> shape_of ch = extents c ->
+     sh_read_chunk chunk decode sp ddec idec scales v
+       (sh_files chunk encode sp denc ienc scales v key ws) key c = Ok ch).
+Proof. exact chunk_io_roundtrip. Qed.
+Print Assumptions C05_chunk_io_roundtrip.
+
+(* two orders of the same write list (pairwise distinct accepted positions):
+   the expected outcome for every write under both orders, the same list of
+   (file name, result of Shard.close) - byte-identical files - and therefore
+   the same result for EVERY read_chunk (written position or not, any key)
+   through a fresh reader.  Needs neither the size bound nor any decoder law. *)
+Theorem C05_chunk_io_order_independent :
+  forall (chunk : Type) (encode : list N -> chunk -> outcome bytes)
+         (decode : list N -> bytes -> triple -> outcome chunk)
+         (sp : sparams) (denc ienc : bytes -> bytes) (ddec idec : bytes -> outcome bytes)
+         (scales : list PioModel.scale) (key : list N) (sx sy sz cs : Z) (v : vspec),
+  cbits sp < 2 ^ 64 ->
+  find_scale scales key = Some (cubic_scale key sx sy sz cs) ->
+  mk_vspec [cs; cs; cs] [sx; sy; sz] = Ok v ->
+  rank_room sp v ->
+  forall ws1 ws2 : list (chunk * PioModel.coords),
+  NoDup (map snd ws1) ->
+  Forall (fun w => check_valid scales key (snd w) = Ok tt) ws1 ->
+  Permutation ws1 ws2 ->
+  fst (sh_session chunk encode sp denc ienc scales v key ws1) =
+    map (fun w => bind (encode key (fst w)) (fun _ => Ok tt)) ws1 /\
+  fst (sh_session chunk encode sp denc ienc scales v key ws2) =
+    map (fun w => bind (encode key (fst w)) (fun _ => Ok tt)) ws2 /\
+  snd (sh_session chunk encode sp denc ienc scales v key ws1) =
+  snd (sh_session chunk encode sp denc ienc scales v key ws2) /\
+  sh_files chunk encode sp denc ienc scales v key ws1 =
+  sh_files chunk encode sp denc ienc scales v key ws2 /\
+  (forall k c,
+     sh_read_chunk chunk decode sp ddec idec scales v
+       (sh_files chunk encode sp denc ienc scales v key ws1) k c =
+     sh_read_chunk chunk decode sp ddec idec scales v
+       (sh_files chunk encode sp denc ienc scales v key ws2) k c).
+Proof. exact chunk_io_order_independent. Qed.
+Print Assumptions C05_chunk_io_order_independent.
+
+(* the write phase is the identifier-level session of the theorems above on
+   [sh_ops], for EVERY write list (rejected positions, failing encoders and
+   repeated positions included) *)
+Theorem C05_chunk_io_write_phase :
+  forall (chunk : Type) (encode : list N -> chunk -> outcome bytes) sp denc scales v key ws st,
+  snd (sh_write_all chunk encode sp denc scales v key st ws) =
+  fst (run_cmc_stores sp denc st (sh_ops chunk encode scales v key ws)).
+Proof. exact write_state. Qed.
+Print Assumptions C05_chunk_io_write_phase.
+
+(* position-level never_stored: an accepted position that no successful write
+   addressed holds no voxel data - fetch_chunk of the fresh reader raises or
+   returns the empty byte string *)
+Theorem C05_chunk_io_unwritten_empty :
+  forall (chunk : Type) (encode : list N -> chunk -> outcome bytes)
+         (sp : sparams) (denc ienc : bytes -> bytes) (ddec idec : bytes -> outcome bytes)
+         (scales : list PioModel.scale) (key : list N) (sx sy sz cs : Z) (v : vspec),
+  cbits sp < 2 ^ 64 -> sp_m sp < 59 ->
+  (forall b, idec (ienc b) = Ok b) -> (forall b, b <> [] -> ienc b <> []) ->
+  find_scale scales key = Some (cubic_scale key sx sy sz cs) ->
+  mk_vspec [cs; cs; cs] [sx; sy; sz] = Ok v ->
+  rank_room sp v ->
+  forall ws : list (chunk * PioModel.coords),
+  (forall y, ddec [] = Ok y -> y = []) ->
+  NoDup (map snd ws) ->
+  Forall (fun w => check_valid scales key (snd w) = Ok tt) ws ->
+  sizes_ok63 sp denc ienc (sh_ops chunk encode scales v key ws) ->
+  forall c buf, check_valid scales key c = Ok tt ->
+  (forall ch b, In (ch, c) ws -> encode key ch <> Ok b) ->
+  sh_fetch_chunk sp ddec idec v (sh_files chunk encode sp denc ienc scales v key ws) c = Ok buf ->
+  buf = [].
+Proof. exact unwritten_position_empty. Qed.
+Print Assumptions C05_chunk_io_unwritten_empty.
+
+(* the identifier-level hypothesis follows from the position-level ones *)
+Theorem C05_ops_valid_from_positions :
+  forall (chunk : Type) (encode : list N -> chunk -> outcome bytes) (sp : sparams)
+         (scales : list PioModel.scale) (key : list N) (sx sy sz cs : Z) (v : vspec),
+  find_scale scales key = Some (cubic_scale key sx sy sz cs) ->
+  mk_vspec [cs; cs; cs] [sx; sy; sz] = Ok v ->
+  rank_room sp v ->
+  forall ws : list (chunk * PioModel.coords),
+  NoDup (map snd ws) ->
+  Forall (fun w => check_valid scales key (snd w) = Ok tt) ws ->
+  ops_valid sp (sh_ops chunk encode scales v key ws).
+Proof. exact ops_valid_of_positions. Qed.
+Print Assumptions C05_ops_valid_from_positions.
+
+(* executable sufficient check of the size hypothesis: only the shards that
+   receive a chunk have to be measured *)
+Theorem C05_sizes_ok63_check : forall sp enc ienc ops,
+  sp_m sp < 59 ->
+  forallb (shard_size_okb sp enc ienc ops)
+          (map (fun o => shard_key_model (sp_p sp) (sp_m sp) (sp_s sp) (fst o)) ops) = true ->
+  sizes_ok63 sp enc ienc ops.
+Proof. exact sizes_ok63_check. Qed.
+Print Assumptions C05_sizes_ok63_check.
+
+(* non-vacuity: volume 20 x 30 x 13, chunk size 8 (grid 3 x 4 x 2 with clipped
+   border chunks), m = 2, s = 2, p = 0, raw encoders, scale key "10um", the 24
+   chunks written in decreasing (x, y, z) order.  EVERY hypothesis of
+   C05_chunk_io_roundtrip holds, and its conclusions are confirmed by running
+   the model in the kernel: 24 writes Ok, 4 shard files closed Ok, all 24
+   positions read back through the fresh reader give the chunk written there;
+   the increasing order gives byte-identical files. *)
+Example C05_chunk_io_example :
+  (forall k ch b, ex_encode k ch = Ok b -> ex_decode k b (fst ch) = Ok ch) /\
+  cbits ex_sp < 2 ^ 64 /\ sp_m ex_sp < 59 /\
+  (forall b, raw_dec (raw_enc b) = Ok b) /\ (forall b : bytes, b <> [] -> raw_enc b <> []) /\
+  find_scale ex_scales ex_key = Some (cubic_scale ex_key 20 30 13 8) /\
+  mk_vspec [8; 8; 8]%Z [20; 30; 13]%Z = Ok ex_v /\
+  rank_room ex_sp ex_v /\
+  length ex_ws = 24%nat /\
+  NoDup (map snd ex_ws) /\
+  Forall (fun w => check_valid ex_scales ex_key (snd w) = Ok tt) ex_ws /\
+  Forall (fun w => fst (fst w) = extents (snd w)) ex_ws /\
+  sizes_ok63 ex_sp raw_enc raw_enc (sh_ops ex_chunk ex_encode ex_scales ex_v ex_key ex_ws) /\
+  hd_error ex_ws = Some (((4, 6, 5)%Z, [54; 54; 54]), (16, 20, 24, 30, 8, 13)%Z) /\
+  fst (ex_session ex_ws) = map (fun _ => Ok tt) ex_ws /\
+  forallb (fun nr => okb (snd nr)) (snd (ex_session ex_ws)) = true /\
+  length (ex_files ex_ws) = 4%nat /\
+  map (fun w => ex_read (ex_files ex_ws) (snd w)) ex_ws = map (fun w => Ok (fst w)) ex_ws /\
+  snd (ex_session (rev ex_ws)) = snd (ex_session ex_ws).
+Proof. exact sh_example. Qed.
+Print Assumptions C05_chunk_io_example.
+
+(* WHY the positions must be pairwise distinct: the sharded writer does NOT
+   handle a second store of the same chunk uniformly (MiniShard.store_cmc_chunk).
+   If the first copy has already been appended to its minishard the second
+   store raises RuntimeError and the FIRST chunk stays (position (0,0,0),
+   identifier 0); if the first copy still waits in the reorder buffer for a
+   smaller identifier of its class, "_chunk_buffer[cmc] = ..." silently
+   replaces it and the LAST chunk is stored (position (0,16,0), identifier 16,
+   written before (0,0,0)).  The same three writes in another order end with a
+   different chunk at that position: with repeated positions the result
+   depends on the order of the writes.  (Instances evaluated in the kernel on
+   the dataset above; a general characterisation - refused iff the identifier
+   is below next_cmc of its minishard at that moment - is the definition of
+   MiniShard.ms_store and is not restated at the position level.) *)
+Example C05_chunk_io_second_store :
+  let c0 := ex_coords 20 30 13 8 0 0 0 in
+  let c16 := ex_coords 20 30 13 8 0 2 0 in
+  let A := ((8, 8, 8)%Z, [1]) in let B := ((8, 8, 8)%Z, [2]) in let C := ((8, 8, 8)%Z, [3]) in
+  sh_cmc ex_v c0 = Ok 0 /\ sh_cmc ex_v c16 = Ok 16 /\
+  fst (ex_session [(A, c0); (B, c0)]) = [Ok tt; Crash RuntimeError] /\
+  ex_read (ex_files [(A, c0); (B, c0)]) c0 = Ok A /\
+  fst (ex_session [(A, c16); (B, c16); (C, c0)]) = [Ok tt; Ok tt; Ok tt] /\
+  ex_read (ex_files [(A, c16); (B, c16); (C, c0)]) c16 = Ok B /\
+  fst (ex_session [(C, c0); (A, c16); (B, c16)]) = [Ok tt; Ok tt; Crash RuntimeError] /\
+  ex_read (ex_files [(C, c0); (A, c16); (B, c16)]) c16 = Ok A.
+Proof. exact sh_second_store_example. Qed.
+Print Assumptions C05_chunk_io_second_store.
